@@ -133,6 +133,7 @@ class Scamp(object):
         self.fills = []                             # per flood-fill start seen: {"pid","announced","missed"}
         self.miss_schedule = []                     # [fill number] -> {chip: set of "all"/"start"/"select"/"end"/("block", k)}
         self.allocs = []                            # (chip, app_id, count, base) for every alloc_rtr request
+        self.drop_fill = None                       # optional f(chip, image) -> True: the chip behaves as if it missed that whole fill
         self.booted = False
 
     # -- rendering of state into memory -------------------------------------------------------
@@ -171,7 +172,7 @@ class Scamp(object):
             rec = struct.pack("<2H3I", 0, (e[4] << 8) | e[3], e[0], e[1], e[2])
         chip.write(chip.rtr_copy + 16 * i, rec)
 
-    def boot(self, p2p_on_all_chips=False):
+    def boot(self, p2p_on_all_chips=False, render_router=True):
         for (x, y), c in self.chips.items():
             self.sv_write(c, b"p2p_addr", (x << 8) | y)
             self.sv_write(c, b"p2p_dims", (self.width << 8) | self.height)
@@ -188,11 +189,12 @@ class Scamp(object):
             for p in range(18):
                 self.sync_core(c, p)
                 self.vcpu_write(c, p, b"phys_cpu", (p * 5 + 3) % 18)
-            blank = struct.pack("<2H3I", 0, 0, RTR_UNUSED_ROUTE, 0xFFFFFFFF, 0)
-            c.write(c.rtr_copy, blank * 1024)
-            for i in range(1024):
-                if c.rtr[i] is not None:
-                    self.sync_rtr(c, i)
+            if render_router:
+                blank = struct.pack("<2H3I", 0, 0, RTR_UNUSED_ROUTE, 0xFFFFFFFF, 0)
+                c.write(c.rtr_copy, blank * 1024)
+                for i in range(1024):
+                    if c.rtr[i] is not None:
+                        self.sync_rtr(c, i)
             if p2p_on_all_chips or (x, y) == self.root:
                 words = {}
                 for tx in range(self.width):
@@ -372,6 +374,8 @@ class Scamp(object):
                     c.write(addr, body)
                     total += len(body)
                 image = c.read(c.sdram_sys, total)
+                if self.drop_fill is not None and self.drop_fill(xy, image):
+                    continue
                 for p in range(1, c.num_cores):
                     if (ff["mask"] >> p) & 1:
                         self.set_core(xy, p, ST_WAIT if flags & 1 else ST_RUN, app_id, image)
